@@ -856,6 +856,7 @@ DISPENSO_INLINE bool ThreadPool::tryFindAndExecuteWork(
         task();
         return true;
       }
+      DISPENSO_VERIF_POINT(::dispenso::verif::kPoolFindBeforeHintClear);
       centralQueueNonEmpty_.store(false, std::memory_order_relaxed);
     }
     bool fromRing = myRing.try_pop(task);
